@@ -179,6 +179,36 @@ def gen_case(rng, odd):
         nd["kw"] = rng.choice([0, len(names), rng.randrange(len(names) + 1)])
         nd["order2"] = list(reversed(nd["order"])) if rng.random() < 0.5 else rng.sample(names, len(names))
         nd["kw2"] = rng.choice([0, len(names), len(names), rng.randrange(len(names) + 1)])
+    # configurations flagged as meta-parameters (setmeta(c, True)): ignored by the identifier wherever they are held;
+    # only configurations without sub-configurations are flagged, so that dropping them drops nothing else.
+    # 30% of the cases: more of them, put in front of / inside the lists of the graph
+    rich = rng.random() < 0.3
+    for i in free[1:]:
+        if nodes[i]["cls"] in ("Leaf", "FnGen") and not nodes[i]["pre"] and rng.random() < (0.5 if rich else 0.1):
+            nodes[i]["meta"] = True
+    if rich:
+        flagged = [i for i in free if nodes[i].get("meta")]
+        for _ in range(rng.choice([1, 2, 3])):
+            flagged.append(new(rng.choice(["Leaf", "Leaf", "FnGen"])))
+            nodes[flagged[-1]]["meta"] = True
+        # the lists of configurations of the graph: l, the elements of ll, the values of dl
+        lists = []
+        for i in free:
+            for f, fv in nodes[i]["fields"]:
+                if f == "l":
+                    lists.append(fv)
+                elif f == "ll":
+                    lists.extend(fv["v"])
+                elif f == "dl":
+                    lists.extend(x for _, x in fv["v"])
+        for lst in lists:
+            for _ in range(rng.choice([0, 1, 1, 2])):
+                lst["v"].insert(rng.choice([0, 0, rng.randrange(len(lst["v"]) + 1)]), dict(t="ref", n=rng.choice(flagged)))
+        if not lists and "l" in SHAPE[nodes[0]["cls"]] and not any(k == "l" for k, _ in nodes[0]["fields"]):
+            others = [t for t in targets if not nodes[t].get("meta")] or [flagged[0]]
+            nodes[0]["fields"].append(["l", dict(t="list", v=[dict(t="ref", n=rng.choice(flagged)),
+                                                               dict(t="ref", n=rng.choice(others))])])
+            nodes[0]["fields"].sort(key=lambda kv: DECLS[nodes[0]["cls"]].index(kv[0]))
     # pre-tasks of one configuration have pairwise different identifiers (their v differs), and may be added
     # in another order by the second submit (pre2)
     for i, nd in enumerate(nodes):
@@ -191,9 +221,17 @@ def gen_case(rng, odd):
             nd["pre2"] = list(reversed(nd["pre"])) if rng.random() < 0.7 else rng.sample(nd["pre"], len(nd["pre"]))
     # the second submit is a fresh copy of the same configuration: identical, or its dicts filled in the
     # opposite order, or its parameters assigned in another order, or its pre-tasks added in another order
+    for nd in nodes:
+        if nd["cls"] != "Out":
+            names = [k for k, _ in nd["fields"]]
+            nd["order"] = [x for x in nd.get("order", []) if x in names] + [x for x in names if x not in nd.get("order", [])]
+            nd["order2"] = [x for x in nd.get("order2", []) if x in names] + [x for x in names if x not in nd.get("order2", [])]
+            nd.setdefault("kw", 0)
+            nd.setdefault("kw2", 0)
+    # ... or the flagged elements of its lists dropped
     m = rng.random()
-    return dict(root=0, producers=producers, nodes=nodes, reorder=m < 0.25, reassign=0.25 <= m < 0.5,
-                repre=0.5 <= m < 0.75)
+    return dict(root=0, producers=producers, nodes=nodes, reorder=m < 0.2, reassign=0.2 <= m < 0.4,
+                repre=0.4 <= m < 0.6, dropmeta=0.6 <= m < 0.8)
 
 
 def values_in(v):
@@ -307,9 +345,17 @@ def g_case(c):
         # pre-tasks in another order: on a tree that places them by list index the second copy legitimately
         # differs (reported by the oracle); with equal identifiers the stable sort keeps the list order
         v2 = v1
+    if c.get("dropmeta"):
+        if not a["meta_apart"]:
+            v2 = v1     # every element counts on this tree: the second copy differs (reported by the oracle)
+        else:
+            # the flagged configurations may have left the graph of the second copy: not compared
+            flagged = {i for i, nd in enumerate(c["nodes"]) if nd.get("meta")}
+            v2 = gvalues([x if x["node"] in flagged else y for x, y in zip(a["values"], a["values2"])], a["sealed"])
     ans = "(let v := %s in Build_answer %s v %s)" % (v1, glist(gbool(b) for b in a["sealed"]), "v" if v1 == v2 else v2)
     ids = glist((gstr(a["ids"][str(i)]) if str(i) in a["ids"] else "[]") for i in range(len(c["nodes"])))
-    return f"(Case {heap} gens decls {ids} {gnat(c['root'])} {ans})"
+    metas = glist(gbool(bool(nd.get("meta"))) for nd in c["nodes"])
+    return f"(Case {heap} gens decls {ids} {metas} tree {gnat(c['root'])} {ans})"
 
 
 def g_decls(decls):
@@ -337,7 +383,7 @@ def oracle(case):
     jd = first["jobdir"]
     why = "plain-keys" if all(is_plain(k) for k in case_keys(case)) else "nonplain-dict-key"
     small = dict(root=case["root"], producers=case["producers"], nodes=case["nodes"], reorder=bool(case.get("reorder")),
-                 reassign=bool(case.get("reassign")), repre=bool(case.get("repre")))
+                 reassign=bool(case.get("reassign")), repre=bool(case.get("repre")), dropmeta=bool(case.get("dropmeta")))
     new = [v for v in first["values"] if v["path"] is not None and not first["sealed"][v["node"]]]
     jparts = resolve(jd["parts"])
     seen = {}
@@ -372,6 +418,14 @@ def oracle(case):
                         data=dict(case=small, file=clash[0], below=clash[1])))
     r1 = [rel_to_job(v["path"], jd) for v in first["values"]]
     r2 = [rel_to_job(v["path"], second["jobdir"]) for v in second["values"]]
+    dropped = case.get("dropmeta") and any(
+        x["t"] == "ref" and case["nodes"][x["n"]].get("meta")
+        for nd in case["nodes"] for _, fv in nd["fields"] for c in containers(fv) if c["t"] == "list" for x in c["v"])
+    if dropped:
+        # the flagged configurations themselves may have left the graph: only the others are compared
+        keep = [not case["nodes"][v["node"]].get("meta") for v in first["values"]]
+        r1 = [x for x, k in zip(r1, keep) if k]
+        r2 = [x for x, k in zip(r2, keep) if k]
     if jd != second["jobdir"]:
         out.append(dict(key=f"C17:other-jobdir:{why}",
                         what="a fresh copy of the configuration was given another job directory",
@@ -385,6 +439,14 @@ def oracle(case):
                                  "filled in another order received other generated paths",
                             data=dict(case=small, first=[x for x, y in zip(r1, r2) if x != y],
                                       second=[y for x, y in zip(r1, r2) if x != y])))
+        elif dropped:
+            vals = [v for v in first["values"] if not case["nodes"][v["node"]].get("meta")]
+            out.append(dict(key="C17:paths-depend-on-meta-list-elements",
+                            what="the same configuration (same identifier and job directory) without the list elements "
+                                 "flagged as meta-parameters, which the identifier ignores, received other generated paths",
+                            data=dict(case=small,
+                                      first=[dict(v, path=x) for v, x, y in zip(vals, r1, r2) if x != y],
+                                      second=[dict(v, path=y) for v, x, y in zip(vals, r1, r2) if x != y])))
         elif case.get("repre") and any("pre2" in nd and nd["pre2"] != nd["pre"] for nd in case["nodes"]):
             if pre_ties(case, first):
                 pass    # pre-tasks with equal identifiers are interchangeable: which one gets which index is free
@@ -435,7 +497,7 @@ def reductions(case):
     def emit(mut):
         c2 = copy.deepcopy(dict(root=case["root"], producers=case["producers"], nodes=case["nodes"],
                                 reorder=bool(case.get("reorder")), reassign=bool(case.get("reassign")),
-                                repre=bool(case.get("repre"))))
+                                repre=bool(case.get("repre")), dropmeta=bool(case.get("dropmeta"))))
         mut(c2["nodes"])
         for nd in c2["nodes"]:
             if "pre2" in nd and sorted(nd["pre2"]) != sorted(nd["pre"]):
@@ -530,11 +592,15 @@ def run(c: Check):
               "number of them as constructor keywords, the others by assignment: the .values dict is in that "
               "assignment order, reported by the driver and given to the model), 30% of the Node/T objects hold one "
               "sub-configuration in two parameters; the second submit is a fresh copy of the same configuration: "
-              "25% with every dict filled in the opposite order, 25% with the parameters assigned in another "
-              "order, 25% with the pre-tasks of every configuration added in another order, 25% identical; 35% of "
+              "20% with every dict filled in the opposite order, 20% with the parameters assigned in another "
+              "order, 20% with the pre-tasks of every configuration added in another order, 20% without the list "
+              "elements flagged as meta-parameters, 20% identical; Leaf/FnGen configurations without pre-tasks are "
+              "flagged with setmeta (10%, and in 30% of the cases half of them plus 1-3 extra ones put in front of / "
+              "inside the lists of the graph); 35% of "
               "the cases get 2-3 extra lightweight tasks and pre-task attachments mostly draw distinct ones; a "
               "directed probe (add_pretasks(a, b) vs (b, a)) selects the model variant for the placement of "
-              "pre-tasks, another one submits a task whose parameter defaults to a configuration with a generated "
+              "pre-tasks, one (l=[flagged, a]) the variant for list positions, one gives a configuration to two tasks, "
+              "another one submits a task whose parameter defaults to a configuration with a generated "
               "path (configuration-valued defaults are never generated)")
     c.build()
     c.props()
@@ -556,6 +622,17 @@ def run(c: Check):
     # which placement of pre-tasks does this tree have?  by rank of the identifier (fixes/C17-3.diff) or by list index
     sorts = bool(probes["sorts_pretasks"])
     c.count("tree:pre-tasks-placed-by-" + ("identifier-rank" if sorts else "list-index"))
+    # ... and flagged list elements: numbered apart (fixes/C17-4.diff) or counted like the others
+    meta_apart = bool(probes["meta_apart"])
+    c.count("tree:flagged-list-elements-" + ("numbered-apart" if meta_apart else "counted"))
+    sh = probes["shared"]
+    n2 = len(sh["second_job"]["parts"])
+    if sh["path_in_second"]["parts"][:n2] != sh["second_job"]["parts"]:
+        c.violation("C17:shared-configuration-keeps-first-job-paths",
+                    "a configuration with a generated path given to two tasks is sealed by the first submit: in the "
+                    "second task its generated path lies in the FIRST job's directory (nothing is generated for it at "
+                    "the second submit), while a fresh equal configuration - same identifier - gets a path of its own",
+                    dict(scenario="sub = Leaf(v=7); T(v=5, c=sub).submit(); T(v=6, c=sub).submit()", observed=sh))
     c.extra["probes"] = probes
     pd = probes["config_default"]
     if "error" in pd:
@@ -587,7 +664,7 @@ def run(c: Check):
         first, second = a["first"], a["second"]
         jd = first["jobdir"]
         case["ans"] = dict(sealed=first["sealed"], vorder=first["vorder"], ids=first.get("ids") or {},
-                           sorts_pretasks=sorts, pre_ties=pre_ties(case, first),
+                           sorts_pretasks=sorts, pre_ties=pre_ties(case, first), meta_apart=meta_apart,
                            values=[dict(v, path=rel_to_job(v["path"], jd)) for v in first["values"]],
                            values2=[dict(v, path=rel_to_job(v["path"], second["jobdir"])) for v in second["values"]])
         good.append(case)
@@ -600,7 +677,16 @@ def run(c: Check):
         c.count(f"producers={len(case['producers'])}")
         c.count("second-copy:" + ("dicts-reversed" if case.get("reorder") else
                                   "parameters-assigned-in-another-order" if case.get("reassign") else
-                                  "pre-tasks-added-in-another-order" if case.get("repre") else "identical"))
+                                  "pre-tasks-added-in-another-order" if case.get("repre") else
+                                  "flagged-list-elements-dropped" if case.get("dropmeta") else "identical"))
+        lsts = [cc for nd in case["nodes"] for _, fv in nd["fields"] for cc in containers(fv) if cc["t"] == "list"]
+        isflag = lambda x: x["t"] == "ref" and bool(case["nodes"][x["n"]].get("meta"))   # noqa: E731
+        if any(isflag(x) for l in lsts for x in l["v"]):
+            c.count("list-with-flagged-element")
+            if case.get("dropmeta"):
+                c.count("second-copy-drops-flagged-elements")
+        if any(isflag(l["v"][k]) and not isflag(l["v"][k + 1]) for l in lsts for k in range(len(l["v"]) - 1)):
+            c.count("flagged-element-followed-by-another-element")
         if case.get("repre") and any("pre2" in nd and nd["pre2"] != nd["pre"] for nd in case["nodes"]):
             c.count("second-copy-pre-task-order-differs")
         if pre_ties(case, first):
@@ -632,8 +718,9 @@ def run(c: Check):
     c.samples = [dict(nodes=x["nodes"], producers=x["producers"], jobdir=x["raw"]["first"]["jobdir"],
                       values=x["ans"]["values"]) for x in good[:2]]
     header = (HEADER + "Definition gens := " + g_gens(classes) + ".\n"
-              + "Definition decls := " + g_decls(decls) + ".\n")
-    bad = c.corr_shards("corr", header, good, g_case, "check_case" if sorts else "check_case_listorder", shard=100)
+              + "Definition decls := " + g_decls(decls) + ".\n"
+              + "Definition tree := Build_tree %s %s.\n" % (gbool(sorts), gbool(meta_apart)))
+    bad = c.corr_shards("corr", header, good, g_case, "check_case", shard=100)
     if bad:
         # which behaviour does the tree have?  check_case_insertion: before fixes/C17-2.diff (dicts walked in
         # insertion order); check_case_prefix: before fixes/C17-1.diff too (dict keys used as they are)
@@ -642,7 +729,9 @@ def run(c: Check):
         bad_ins = c.corr_shards("diag", header, sub, g_case, "check_case_insertion", shard=100)
         bad_prefix = c.corr_shards("diag2", header, sub, g_case, "check_case_prefix", shard=100)
         bad_asg = c.corr_shards("diag3", header, sub, g_case, "check_case_assigned", shard=100)
+        bad_skip = c.corr_shards("diag4", header, sub, g_case, "check_case_skip", shard=100)
         c.obligations = saved
+        c.extra["disagreeing_cases_match_positions_skipping_flagged_elements"] = len(sub) - len(bad_skip)
         c.extra["disagreeing_cases_match_assignment_order_walk"] = len(sub) - len(bad_asg)
         c.extra["disagreeing_cases_match_insertion_order_model"] = len(sub) - len(bad_ins)
         c.extra["disagreeing_total"] = len(bad)
@@ -655,7 +744,7 @@ def run(c: Check):
     if bad and not c.violations:
         c.extra["replay_cases"] = [dict(root=good[i]["root"], producers=good[i]["producers"], nodes=good[i]["nodes"],
                                         reorder=bool(good[i].get("reorder")), reassign=bool(good[i].get("reassign")),
-                                        repre=bool(good[i].get("repre")))
+                                        repre=bool(good[i].get("repre")), dropmeta=bool(good[i].get("dropmeta")))
                                    for i in bad[:5]]
     c.level_assumptions = [
         "pathlib.PurePosixPath parsing/joining is modelled (GenPath.parse/pjoin), not verified; the job directory "
